@@ -45,7 +45,9 @@ def replay(case):
     # layout 2: arbitrary cuts incl. an empty partition, unknown divisions -> only the end result, compared as the
     # same query (row order compares only when the query defines it)
     n1 = len(tabs["T1"])
-    env2 = rel.dask_sources(tabs, {"T1": ("cuts", case["cuts1"], False), "T2": ("from_pandas", 1)})
+    # every other data seed reads T2 from a numpy array (columns k, b, c are NOT in sorted order; positional column selection)
+    t2spec = ("from_array", 4) if case["dseed"] % 2 == 1 and "mergeasof" not in rel.ops_of(q) else ("from_pandas", 1)
+    env2 = rel.dask_sources(tabs, {"T1": ("cuts", case["cuts1"], False), "T2": t2spec})
     try:
         coll2 = rel.build(q, env2, "dask")
         ref2 = rel.observe(lambda: rel.run_unoptimized(coll2))
